@@ -753,6 +753,11 @@ func (e *sessEngine) Gen(r *rand.Rand, n int, tier string, w *bufio.Writer) {
 		}
 		plainTok := func() string {
 			if authOn {
+				if r.Intn(5) < 2 {
+					// an expiry far ahead (10 min): the connection has a deadline but ends by
+					// every other cause first (server shutdown, shed, go-away, drop, …)
+					return "600000"
+				}
 				return "noexp"
 			}
 			return "-"
